@@ -162,7 +162,7 @@ def one(task):
         mism += [("empty", m_) for m_ in r4["mismatch"]]
         if (t + b"/info/e.trashinfo") not in r4["after_state"]:
             problems.append("trash-empty DAYS purged an entry trash-list shows as undated")
-    out = {"problems": problems, "mismatch": mism, "tags": tags, "key": (shape, ptempl, date, kind)}
+    out = {"problems": problems, "mismatch": mism, "tags": tags, "key": (shape, ptempl, date, kind), "task": jsonable(dict(task))}
     if problems or mism:
         out["case"] = jsonable({"shape": shape, "path": ptempl, "date": date, "kind": kind, "content": render(shape, path, date)})
     return out
@@ -178,13 +178,26 @@ def run(tier, seed):
         ck.case(r["key"], tags=r["tags"], sample={"case": repr(r["key"])})
         ck.traces += 1
         for step, m in r["mismatch"]:
-            ck.disagreement("Model.Cmds (%s) vs trashcli (%s)" % (step, m["what"]), {"case": r.get("case"), "difference": m})
+            ck.disagreement("Model.Cmds (%s) vs trashcli (%s)" % (step, m["what"]), {"task": r.get("task"), "case": r.get("case"), "difference": m})
         for p in r["problems"]:
-            ck.violation(p.split(":")[0][:70], {"oracle": "four-way"}, {"case": r.get("case"), "problem": p})
+            ck.violation(p.split(":")[0][:70], {"oracle": "four-way"}, {"task": r.get("task"), "case": r.get("case"), "problem": p})
     ck.exhaustive = True
     return ck.finish(info, LEVEL_NOTE, RULE)
 
 
 def replay(path):
-    print(open(path).read()[:4000])
-    return 1
+    import json
+    from ..runner import unjsonable
+    obj = unjsonable(json.load(open(path)))
+    tasks = []
+    if isinstance(obj.get("replay"), dict) and obj["replay"].get("task"):
+        tasks.append(obj["replay"]["task"])
+    tasks += [c["task"] for c in obj.get("disagreeing_cases", []) if c and c.get("task")]
+    rc = 0
+    for t in tasks:
+        r = one(t)
+        print(json.dumps({"problems": r["problems"], "mismatch": r["mismatch"], "key": repr(r["key"])}, indent=1, default=repr))
+        if r["problems"] or r["mismatch"]:
+            print("VIOLATION property=C20 replay=%s" % path)
+            rc = 1
+    return rc
